@@ -243,6 +243,9 @@ def gen_dag(rng, nmin=5, nmax=12, sysm=None, allow_library=True):
     # a third of the all-C binaries say so explicitly (lang='c'): the C driver then links
     # them even when a static C++ library is below, and needs that library's runtime
     for node in nodes:
+        if node.get('lopt') and rng.random() < 0.5:
+            node['lopt_form'] = 'xlinker'
+    for node in nodes:
         if node['kind'] in ('exe', 'shared') and node['tus'] and \
            all(tu['lang'] == 'c' for tu in node['tus']) and rng.random() < 0.33:
             node['force_lang'] = 'c'
@@ -386,6 +389,21 @@ def directed_dags(sysm):
         _exe(4, 'bin/prog4', [0, 1, 2], [(2, 2, 'f'), (2, 2, 'g')]),
         _exe(5, 'out/tool5', [1, 3, 2], [(3, 3, 'f')], lang='c++'),
     ]))
+    # D14: two static libraries below one binary, each forwarding a two-word link option with
+    # the same flag word (-Xlinker ARG): every occurrence of the flag word must survive
+    d14 = [
+        _lib(0, 'static', 'plug/n0alpha', [], lopt='0x1a2b01'),
+        _lib(1, 'static', 'plug/sub/n1beta', [], lopt='0x1a2b02', lang='c++'),
+        _lib(2, 'static', 'lib/n2reg', [0, 1], fcalls=[(0, 0, 'f')], gcalls=[(1, 1, 'g')],
+             lopt='0x1a2b03'),
+        _exe(3, 'bin/host3', [0, 1], [(0, 0, 'f'), (1, 1, 'f')]),
+        _exe(4, 'tool4', [2], [(2, 2, 'f'), (2, 2, 'g')]),
+        _lib(5, 'shared', 'so/n5dyn', [1, 0], fcalls=[(1, 1, 'g')], gcalls=[(0, 0, 'g')]),
+        _exe(6, 'out/prog6', [5], [(5, 5, 'f'), (5, 5, 'g')]),
+    ]
+    for n in d14[:3]:
+        n['lopt_form'] = 'xlinker'
+    out.append(('two-word-link-options-from-two-static-libraries', d14))
     # D13: binaries and the shared libraries they load in sibling directories whose names are
     # string prefixes of each other (the run-time search path is a relative path between them)
     out.append(('prefix-related-sibling-directories', [
@@ -644,8 +662,13 @@ def render(case):
         if libs:
             args.append('libs=[%s]' % ', '.join(libs))
         if n['lopt']:
-            args.append('link_options=[%r]' %
-                        ('-Wl,--defsym=%s=%s' % (lopt_symbol(n), n['lopt'])))
+            if n.get('lopt_form') == 'xlinker':
+                # the same option as two words: a flag word followed by its argument
+                args.append('link_options=[%r, %r]' %
+                            ('-Xlinker', '--defsym=%s=%s' % (lopt_symbol(n), n['lopt'])))
+            else:
+                args.append('link_options=[%r]' %
+                            ('-Wl,--defsym=%s=%s' % (lopt_symbol(n), n['lopt'])))
         if n.get('version'):
             args.append('version=%r, soversion=%r' % tuple(n['version']))
         if n.get('force_lang'):
